@@ -76,8 +76,11 @@ func (c *Context) SpawnChild(p Producer, name string, opts ...OptFunc) *PID {
 	}
 	proc := newProcess(c.engine, options)
 	proc.context.parentCtx = c
-	pid := c.engine.SpawnProc(proc)
-	c.children.Set(pid.ID, pid)
+	// Register the child with the parent before it starts: a child that stops
+	// during its own start removes itself again, instead of being added after
+	// it is already gone.
+	c.children.Set(proc.PID().ID, proc.PID())
+	c.engine.SpawnProc(proc)
 
 	return proc.PID()
 }
